@@ -313,3 +313,356 @@ theorem InvD.frame (h : InvD cfg s) (hc : s'.cache = s.cache) (hl : s'.lock = s.
     · exact h9 e c u (p ▸ k)
     · rcases k with k | k <;> simp [k, critical] at p
 
+def hasFatal (cfg : Config) : Bool := cfg.callers.any (fun sp => decide (sp.entry.kind = .fatal))
+
+theorem hasFatal_of_caller {c : Nat} (hc : c < cfg.callers.length) (hk : (entryOf cfg c).kind = .fatal) :
+    hasFatal cfg = true := by
+  simp only [hasFatal, List.any_eq_true, decide_eq_true_eq]
+  refine ⟨cfg.callers[c], List.getElem_mem hc, ?_⟩
+  simpa [entryOf, spec, List.getD, hc] using hk
+
+structure InvC (cfg : Config) (s : State) : Prop where
+  ans_done : ∀ c o, (c, o) ∈ s.answers → s.phase c = .done
+  ans_nodup : (s.answers.map (·.1)).Nodup
+  ans_ok : ∀ c o, (c, o) ∈ s.answers → o = expected cfg c ∨ (o = .error .missingApp ∧ cfg.locked = false)
+    ∨ (o = .error .notRunning ∧ hasFatal cfg = true)
+  pend_phase : ∀ i id c, (id, c) ∈ (s.execs i).pending → s.phase c = .submitted i id
+  pend_exp : ∀ i id c, (id, c) ∈ (s.execs i).pending →
+    expected cfg c = runModel i (entryOf cfg c) ∧ i = cfg.select (spec cfg c).app
+  sub_pend : ∀ c i id, s.phase c = .submitted i id → (id, c) ∈ (s.execs i).pending
+  task_data : ∀ i t c, (t ∈ (s.execs i).taskQ ∨ t ∈ (s.execs i).held.map (·.2)) →
+    (t.id, c) ∈ (s.execs i).pending → t.entry = entryOf cfg c
+  res_data : ∀ i r c, r ∈ (s.execs i).resultQ → (r.id, c) ∈ (s.execs i).pending →
+    r.out = runModel i (entryOf cfg c)
+  stop_fatal : ∀ i, (s.execs i).stopped = true → hasFatal cfg = true
+  arrived_lt : ∀ c, s.phase c ≠ .fresh → c < cfg.callers.length
+  done_ans : ∀ c, s.phase c = .done → ∃ o, (c, o) ∈ s.answers
+  held_lt : ∀ i w t, (w, t) ∈ (s.execs i).held → w < cfg.workers
+
+theorem InvC.init : InvC cfg Serving.init := by
+  constructor <;> simp [Serving.init]
+
+/-- a caller moves between phases other than `submitted`/`done`; executors and answers untouched -/
+theorem InvC.phase_only (h : InvC cfg s) (c : Nat) (p : Phase)
+    (he : s'.execs = s.execs) (ha : s'.answers = s.answers) (hp : s'.phase = upd s.phase c p)
+    (h0 : ∀ i id, s.phase c ≠ .submitted i id) (h1 : s.phase c ≠ .done)
+    (h2 : ∀ i id, p ≠ .submitted i id) (h4 : p ≠ .done) (h3 : c < cfg.callers.length) : InvC cfg s' := by
+  obtain ⟨a1, a2, a3, a4, a5, a6, a7, a8, a9, a10, a11, a12⟩ := h
+  constructor <;> simp only [he, ha, hp, upd] <;> grind
+
+/-- a caller in a phase other than `submitted`/`done` is answered; executors untouched -/
+theorem InvC.answered (h : InvC cfg s) (c : Nat) (o : Outcome)
+    (he : s'.execs = s.execs) (ha : s'.answers = (c, o) :: s.answers) (hp : s'.phase = upd s.phase c .done)
+    (h0 : ∀ i id, s.phase c ≠ .submitted i id) (h1 : s.phase c ≠ .done) (h3 : c < cfg.callers.length)
+    (ho : o = expected cfg c ∨ (o = .error .missingApp ∧ cfg.locked = false)
+      ∨ (o = .error .notRunning ∧ hasFatal cfg = true)) : InvC cfg s' := by
+  obtain ⟨a1, a2, a3, a4, a5, a6, a7, a8, a9, a10, a11, a12⟩ := h
+  constructor <;> simp only [he, ha, hp, upd] <;> grind
+
+theorem InvC.submit (h : InvC cfg s) (hE : ∀ i, ExecOk (s.execs i)) (c : Nat)
+    (hp : s.phase c = .resolved) (hb : (spec cfg c).badEncoding = false)
+    (hk : (spec cfg c).app ∈ cfg.inventory) :
+    InvC cfg { s with
+          phase := upd s.phase c (.submitted (cfg.select (spec cfg c).app) (s.execs (cfg.select (spec cfg c).app)).next)
+          execs := upd s.execs (cfg.select (spec cfg c).app) { s.execs (cfg.select (spec cfg c).app) with
+            started := true, next := (s.execs (cfg.select (spec cfg c).app)).next + 1,
+            pending := ((s.execs (cfg.select (spec cfg c).app)).next, c) :: (s.execs (cfg.select (spec cfg c).app)).pending,
+            taskQ := (s.execs (cfg.select (spec cfg c).app)).taskQ ++ [⟨(s.execs (cfg.select (spec cfg c).app)).next, entryOf cfg c⟩] } } := by
+  obtain ⟨a1, a2, a3, a4, a5, a6, a7, a8, a9, a10, a11, a12⟩ := h
+  generalize hi : cfg.select (spec cfg c).app = i at *
+  have hx : expected cfg c = runModel i (entryOf cfg c) := by simp [expected, hk, hb, hi]
+  have e1 := (hE i).keys_lt
+  have e2 := (hE i).fl_keys
+  have fresh : ∀ c', ((s.execs i).next, c') ∉ (s.execs i).pending := by
+    intro c' hm
+    have := e1 _ (List.mem_map_of_mem (f := (·.1)) hm)
+    simp at this
+  have tfresh : ∀ t, t ∈ (s.execs i).taskQ ∨ t ∈ (s.execs i).held.map (·.2) → t.id ≠ (s.execs i).next := by
+    intro t ht he
+    have : t.id ∈ inflight (s.execs i) := by
+      simp only [inflight, List.mem_append, List.mem_map]
+      rcases ht with ht | ht
+      · exact Or.inl (Or.inl ⟨t, ht, rfl⟩)
+      · obtain ⟨x, hx, rfl⟩ := List.mem_map.1 ht
+        exact Or.inl (Or.inr ⟨x, hx, rfl⟩)
+    have := e1 _ ((e2 _).1 this)
+    omega
+  have rfresh : ∀ r, r ∈ (s.execs i).resultQ → r.id ≠ (s.execs i).next := by
+    intro r hr he
+    have : r.id ∈ inflight (s.execs i) := by
+      simp only [inflight, List.mem_append, List.mem_map]
+      exact Or.inr ⟨r, hr, rfl⟩
+    have := e1 _ ((e2 _).1 this)
+    omega
+  constructor <;> simp only [upd] <;> grind
+
+theorem InvC.take (h : InvC cfg s) (i w : Nat) (t : Task) (q : List Task) (hq : (s.execs i).taskQ = t :: q)
+    (hw : w < cfg.workers) :
+    InvC cfg { s with execs := upd s.execs i { s.execs i with taskQ := q, held := (w, t) :: (s.execs i).held } } := by
+  obtain ⟨a1, a2, a3, a4, a5, a6, a7, a8, a9, a10, a11, a12⟩ := h
+  constructor <;> simp only [upd] <;> grind
+
+theorem mem_inflight_held {e : Exec} {w : Nat} {t : Task} (h : (w, t) ∈ e.held) : t.id ∈ inflight e := by
+  simp only [inflight, List.mem_append, List.mem_map]
+  exact Or.inl (Or.inr ⟨(w, t), h, rfl⟩)
+
+theorem mem_keys_iff {e : Exec} {id : Nat} : id ∈ keys e ↔ ∃ c, (id, c) ∈ e.pending := by
+  simp [keys]
+
+theorem InvC.finish (h : InvC cfg s) (hE : ∀ i, ExecOk (s.execs i)) (i w : Nat) (t : Task)
+    (hm : (w, t) ∈ (s.execs i).held) :
+    InvC cfg { s with execs := upd s.execs i { s.execs i with
+        held := (s.execs i).held.erase (w, t), resultQ := (s.execs i).resultQ ++ [⟨t.id, runModel i t.entry⟩],
+        stopped := (s.execs i).stopped || decide (t.entry.kind = .fatal) } } := by
+  obtain ⟨c, hc⟩ := mem_keys_iff.1 (((hE i).fl_keys _).1 (mem_inflight_held hm))
+  obtain ⟨a1, a2, a3, a4, a5, a6, a7, a8, a9, a10, a11, a12⟩ := h
+  have hd : t.entry = entryOf cfg c := a7 i t c (Or.inr (List.mem_map.2 ⟨(w, t), hm, rfl⟩)) hc
+  have hlt : c < cfg.callers.length := a10 c (by rw [a4 i _ c hc]; simp)
+  have hf : t.entry.kind = .fatal → hasFatal cfg = true := fun hk => hasFatal_of_caller hlt (hd ▸ hk)
+  have her : ∀ x, x ∈ (s.execs i).held.erase (w, t) → x ∈ (s.execs i).held := fun x hx => List.mem_of_mem_erase hx
+  constructor <;> simp only [upd] <;> grind
+
+theorem nodup_of_map_fst (l : List (Nat × Nat)) (h : (l.map (·.1)).Nodup) : l.Nodup := by
+  induction l with
+  | nil => simp
+  | cons x r ih =>
+    simp only [List.map_cons, List.nodup_cons, List.mem_map] at h ⊢
+    exact ⟨fun hx => h.1 ⟨x, hx, rfl⟩, ih h.2⟩
+
+theorem InvC.deliver (h : InvC cfg s) (hE : ∀ i, ExecOk (s.execs i)) (i c : Nat) (r : Result) (q : List Result)
+    (hq : (s.execs i).resultQ = r :: q) (hm : (r.id, c) ∈ (s.execs i).pending) :
+    InvC cfg { answer s c r.out with
+            execs := upd s.execs i { s.execs i with resultQ := q, pending := (s.execs i).pending.erase (r.id, c) } } := by
+  obtain ⟨a1, a2, a3, a4, a5, a6, a7, a8, a9, a10, a11, a12⟩ := h
+  have hnd : (s.execs i).pending.Nodup := nodup_of_map_fst _ (hE i).keys_nodup
+  have her : ∀ x, x ∈ (s.execs i).pending.erase (r.id, c) ↔ x ≠ (r.id, c) ∧ x ∈ (s.execs i).pending :=
+    fun x => hnd.mem_erase_iff
+  have hph := a4 i _ c hm
+  have hout : r.out = expected cfg c := by rw [(a5 i _ c hm).1]; exact a8 i r c (by simp [hq]) hm
+  constructor <;> simp only [answer, upd] <;> grind
+
+theorem invD_step (a : Step) (h : InvD cfg s)
+    (hC : ∀ i id c, (id, c) ∈ (s.execs i).pending → s.phase c = .submitted i id)
+    (hs : step cfg s a = some s') : InvD cfg s' := by
+  cases a with
+  | arrive c =>
+    obtain ⟨_, hf, rfl⟩ := step_arrive hs
+    refine h.frame rfl rfl (fun c' => ?_)
+    by_cases e : c' = c
+    · subst e; right; simp [critical, hf]
+    · left; simp [upd, e]
+  | decodeFail c =>
+    obtain ⟨hf, _, rfl⟩ := step_decodeFail hs
+    refine h.frame rfl rfl (fun c' => ?_)
+    by_cases e : c' = c
+    · subst e; right; simp [answer, critical, hf]
+    · left; simp [answer, upd, e]
+  | submit c =>
+    obtain ⟨hf, _, ⟨_, rfl⟩ | ⟨_, rfl⟩⟩ := step_submit hs
+    · refine h.frame rfl rfl (fun c' => ?_)
+      by_cases e : c' = c
+      · subst e; right; simp [answer, critical, hf]
+      · left; simp [answer, upd, e]
+    · refine h.frame rfl rfl (fun c' => ?_)
+      by_cases e : c' = c
+      · subst e; right; simp [critical, hf]
+      · left; simp [upd, e]
+  | take i w =>
+    obtain ⟨_, _, _, t, q, hq, rfl⟩ := step_take hs
+    exact h.frame rfl rfl (fun c' => Or.inl rfl)
+  | finish i w =>
+    obtain ⟨t, ht, rfl⟩ := step_finish hs
+    exact h.frame rfl rfl (fun c' => Or.inl rfl)
+  | deliver i =>
+    obtain ⟨_, r, q, hq, ⟨hl, rfl⟩ | ⟨c, hl, rfl⟩⟩ := step_deliver hs
+    · exact h.frame rfl rfl (fun c' => Or.inl rfl)
+    · have hf := hC i _ c (lookup_mem hl)
+      refine h.frame rfl rfl (fun c' => ?_)
+      by_cases e : c' = c
+      · subst e; right; simp [answer, critical, hf]
+      · left; simp [answer, upd, e]
+  | desc c =>
+    obtain ⟨h1, h2, h3, h4, h5, h6, h7, h8, h9⟩ := h
+    rcases step_desc hs with ⟨hp, hl, hc, rfl⟩ | ⟨hp, hl, hc, rfl⟩ | ⟨hp, rfl⟩ | ⟨l, hp, rfl⟩ | ⟨u, hp, rfl⟩ | ⟨u, hp, hc, rfl⟩ | ⟨u, hp, hc, rfl⟩
+    · constructor <;> simp only [upd] <;> grind [critical]
+    · constructor <;> simp only [upd] <;> grind [critical]
+    · constructor <;> simp only [upd] <;> grind [critical]
+    · constructor <;> simp only [upd] <;> grind [critical]
+    · constructor <;> simp only [upd] <;> grind [critical]
+    · constructor <;> simp only [upd] <;> grind [critical]
+    · constructor <;> simp only [answer, upd] <;> grind [critical]
+
+theorem invC_step (a : Step) (h : InvC cfg s) (hE : ∀ i, ExecOk (s.execs i)) (hD : InvD cfg s)
+    (hs : step cfg s a = some s') : InvC cfg s' := by
+  cases a with
+  | arrive c =>
+    obtain ⟨hlt, hf, rfl⟩ := step_arrive hs
+    exact h.phase_only c .d0 rfl rfl rfl (by simp [hf]) (by simp [hf]) (by simp) (by simp) hlt
+  | desc c =>
+    have hlt : ∀ p, s.phase c = p → p ≠ .fresh → c < cfg.callers.length := fun p hp hn => h.arrived_lt c (hp ▸ hn)
+    rcases step_desc hs with ⟨hp, hl, hc, rfl⟩ | ⟨hp, hl, hc, rfl⟩ | ⟨hp, rfl⟩ | ⟨l, hp, rfl⟩ | ⟨u, hp, rfl⟩ | ⟨u, hp, hc, rfl⟩ | ⟨u, hp, hc, rfl⟩
+    · exact h.phase_only c _ rfl rfl rfl (by simp [hp]) (by simp [hp]) (by simp) (by simp) (hlt _ hp (by simp))
+    · exact h.phase_only c _ rfl rfl rfl (by simp [hp]) (by simp [hp]) (by simp) (by simp) (hlt _ hp (by simp))
+    · exact h.phase_only c _ rfl rfl rfl (by simp [hp]) (by simp [hp]) (by simp) (by simp) (hlt _ hp (by simp))
+    · exact h.phase_only c _ rfl rfl rfl (by simp [hp]) (by simp [hp]) (by simp) (by simp) (hlt _ hp (by simp))
+    · exact h.phase_only c _ rfl rfl rfl (by simp [hp]) (by simp [hp]) (by simp) (by simp) (hlt _ hp (by simp))
+    · exact h.phase_only c _ rfl rfl rfl (by simp [hp]) (by simp [hp]) (by simp) (by simp) (hlt _ hp (by simp))
+    · refine h.answered c _ rfl rfl rfl (by simp [hp]) (by simp [hp]) (hlt _ hp (by simp)) ?_
+      cases hlk : cfg.locked with
+      | false => exact Or.inr (Or.inl ⟨rfl, rfl⟩)
+      | true =>
+        left
+        have : (spec cfg c).app ∉ cfg.inventory := fun hin => hc (hD.lk_upd hlk c u (Or.inr hp) hin)
+        simp [expected, this]
+  | decodeFail c =>
+    obtain ⟨hp, hb, rfl⟩ := step_decodeFail hs
+    refine h.answered c _ rfl rfl rfl (by simp [hp]) (by simp [hp]) (h.arrived_lt c (by simp [hp])) ?_
+    left; simp [expected, hD.res_known c hp, hb]
+  | submit c =>
+    obtain ⟨hp, hb, ⟨hst, rfl⟩ | ⟨_, rfl⟩⟩ := step_submit hs
+    · refine h.answered c _ rfl rfl rfl (by simp [hp]) (by simp [hp]) (h.arrived_lt c (by simp [hp])) ?_
+      exact Or.inr (Or.inr ⟨rfl, h.stop_fatal _ hst⟩)
+    · exact h.submit hE c hp hb (hD.res_known c hp)
+  | take i w =>
+    obtain ⟨hw, _, _, t, q, hq, rfl⟩ := step_take hs
+    exact h.take i w t q hq (by assumption)
+  | finish i w =>
+    obtain ⟨t, ht, rfl⟩ := step_finish hs
+    exact h.finish hE i w t (lookup_mem ht)
+  | deliver i =>
+    obtain ⟨_, r, q, hq, ⟨hl, rfl⟩ | ⟨c, hl, rfl⟩⟩ := step_deliver hs
+    · exfalso
+      have : r.id ∈ inflight (s.execs i) := by simp [inflight, hq]
+      exact lookup_none hl (((hE i).fl_keys _).1 this)
+    · exact h.deliver hE i c r q hq (lookup_mem hl)
+
+/-- the full invariant -/
+structure Inv (cfg : Config) (s : State) : Prop where
+  e : ∀ i, ExecOk (s.execs i)
+  d : InvD cfg s
+  c : InvC cfg s
+
+theorem Inv.init : Inv cfg Serving.init := ⟨fun _ => ExecOk.init, InvD.init, InvC.init⟩
+
+theorem Inv.step (a : Step) (h : Inv cfg s) (hs : step cfg s a = some s') : Inv cfg s' :=
+  ⟨execOk_step a h.e hs, invD_step a h.d h.c.pend_phase hs, invC_step a h.c h.e h.d hs⟩
+
+theorem Inv.run (sched : List Step) (h : Inv cfg s) (hs : run cfg s sched = some s') : Inv cfg s' := by
+  induction sched generalizing s with
+  | nil => simp [Serving.run] at hs; exact hs ▸ h
+  | cons a as ih =>
+    simp only [Serving.run] at hs
+    split at hs
+    · cases hs
+    · rename_i s1 h1; exact ih (h.step a h1) hs
+
+theorem stuck_none (h : stuck cfg s = true) {a : Step} (ha : a ∈ candidates cfg (instsOf cfg)) :
+    step cfg s a = none := by
+  simp only [stuck, enabled, List.isEmpty_iff, List.filter_eq_nil_iff] at h
+  have := h a ha
+  cases hs : step cfg s a with
+  | none => rfl
+  | some x => simp [hs] at this
+
+theorem cand_desc {c : Nat} (h : c < cfg.callers.length) : Step.desc c ∈ candidates cfg (instsOf cfg) := by
+  simp [candidates, h]
+theorem cand_decodeFail {c : Nat} (h : c < cfg.callers.length) : Step.decodeFail c ∈ candidates cfg (instsOf cfg) := by
+  simp [candidates, h]
+theorem cand_submit {c : Nat} (h : c < cfg.callers.length) : Step.submit c ∈ candidates cfg (instsOf cfg) := by
+  simp [candidates, h]
+theorem inst_mem {c : Nat} (h : c < cfg.callers.length) : cfg.select (spec cfg c).app ∈ instsOf cfg := by
+  simp only [instsOf, List.mem_map]
+  exact ⟨cfg.callers[c], List.getElem_mem h, by simp [spec, List.getD, h]⟩
+theorem cand_take {i w : Nat} (hi : i ∈ instsOf cfg) (hw : w < cfg.workers) :
+    Step.take i w ∈ candidates cfg (instsOf cfg) := by
+  simp [candidates, hi, hw]
+theorem cand_finish {i w : Nat} (hi : i ∈ instsOf cfg) (hw : w < cfg.workers) :
+    Step.finish i w ∈ candidates cfg (instsOf cfg) := by
+  simp [candidates, hi, hw]
+theorem cand_deliver {i : Nat} (hi : i ∈ instsOf cfg) : Step.deliver i ∈ candidates cfg (instsOf cfg) := by
+  simp [candidates, hi]
+
+theorem isSome_ne_none {α} {o : Option α} (h : o.isSome = true) : o ≠ none := by
+  cases o <;> simp at h ⊢
+
+/-- progress: in a stuck reachable state without stopped executors every arrived caller is done -/
+theorem Inv.stuck_done (h : Inv cfg s) (hw : 1 ≤ cfg.workers) (hns : ∀ i, (s.execs i).stopped = false)
+    (hst : stuck cfg s = true) (c : Nat) (hc : s.phase c ≠ .fresh) : s.phase c = .done := by
+  have hlt := h.c.arrived_lt c hc
+  have descOn : ∀ c', c' < cfg.callers.length → critical (s.phase c') → False := by
+    intro c' hl hcr
+    have := stuck_none hst (cand_desc hl)
+    simp only [Serving.step] at this
+    split at this <;> first | (simp_all [critical]; done) | (split at this <;> cases this)
+  cases hp : s.phase c with
+  | fresh => exact absurd hp hc
+  | done => rfl
+  | d1 => exact (descOn c hlt (by simp [hp, critical])).elim
+  | d2 l => exact (descOn c hlt (by simp [hp, critical])).elim
+  | d3 u => exact (descOn c hlt (by simp [hp, critical])).elim
+  | d4 u => exact (descOn c hlt (by simp [hp, critical])).elim
+  | d0 =>
+    exfalso
+    have := stuck_none hst (cand_desc hlt)
+    simp only [Serving.step, hp] at this
+    split at this
+    · rename_i hl
+      cases hlk : s.lock with
+      | none => exact hl.2 hlk
+      | some c' =>
+        have hcr := h.d.lock_crit c' hlk
+        exact descOn c' (h.c.arrived_lt c' (by intro e; simp [e, critical] at hcr)) hcr
+    · split at this <;> cases this
+  | resolved =>
+    exfalso
+    cases hb : (spec cfg c).badEncoding with
+    | true =>
+      have := stuck_none hst (cand_decodeFail hlt)
+      simp [Serving.step, hp, hb] at this
+    | false =>
+      have := stuck_none hst (cand_submit hlt)
+      simp only [Serving.step, hp, hb] at this
+      simp at this
+      split at this <;> cases this
+  | submitted i id =>
+    exfalso
+    have hm := h.c.sub_pend c i id hp
+    have hi : i ∈ instsOf cfg := by rw [(h.c.pend_exp i id c hm).2]; exact inst_mem hlt
+    have hfl : id ∈ inflight (s.execs i) := ((h.e i).fl_keys id).2 (mem_keys_iff.2 ⟨c, hm⟩)
+    simp only [inflight, List.mem_append, List.mem_map] at hfl
+    have nostop := hns i
+    rcases hfl with (⟨t, ht, _⟩ | ⟨x, hx, _⟩) | ⟨r, hr, _⟩
+    · -- a queued task: a free worker can take it, or worker 0 can finish
+      by_cases hfree : ∃ w, w < cfg.workers ∧ (s.execs i).held.lookup w = none
+      · obtain ⟨w, hwl, hwf⟩ := hfree
+        have := stuck_none hst (cand_take hi hwl)
+        simp only [Serving.step] at this
+        cases hq : (s.execs i).taskQ with
+        | nil => simp [hq] at ht
+        | cons t' q => simp [hq, hwl, nostop, hwf] at this
+      · have : (s.execs i).held.lookup 0 ≠ none := fun e => hfree ⟨0, by omega, e⟩
+        have hs := stuck_none hst (cand_finish hi (w := 0) (by omega))
+        simp only [Serving.step] at hs
+        split at hs
+        · rename_i e; exact this e
+        · cases hs
+    · -- a held task: its worker can finish
+      obtain ⟨w, t⟩ := x
+      have hwl := h.c.held_lt i w t hx
+      have hs := stuck_none hst (cand_finish hi hwl)
+      simp only [Serving.step] at hs
+      split at hs
+      · rename_i e
+        exact lookup_none e (List.mem_map.2 ⟨(w, t), hx, rfl⟩)
+      · cases hs
+    · -- a queued result: the executor thread can deliver
+      have hs := stuck_none hst (cand_deliver hi)
+      simp only [Serving.step, nostop] at hs
+      cases hq : (s.execs i).resultQ with
+      | nil => simp [hq] at hr
+      | cons r' q =>
+        simp only [hq] at hs
+        simp at hs
+        split at hs <;> cases hs
+
+end ForML.Serving
